@@ -86,6 +86,14 @@ def text_cases(tier):
                         f'while True:\n    lcd.write(1, 1, "abc", align="{spelled}")\n', 1))
             out.append((f"text/align_spelling/{spelled}/message/{cols}x{rows}{wiring}", base +
                         f'while True:\n    lcd.message("ab", "cd", top_align="{spelled}", bottom_align="{spelled}")\n', 1))
+    # empty texts: the host clears / pads exactly as for any other text
+    for cols, rows, wiring in ((16, 2, "par"), (8, 1, "i2c"), (20, 4, "i2c")):
+        base = HDR + decl(wiring, cols, rows) + prefill(rows, cols)
+        out.append((f"text/empty/message_top/{cols}x{rows}{wiring}", base + 'while True:\n    lcd.message("", "x")\n', 1))
+        out.append((f"text/empty/message_bottom/{cols}x{rows}{wiring}", base + 'while True:\n    lcd.message("x", "")\n', 1))
+        out.append((f"text/empty/message_both_keep/{cols}x{rows}{wiring}", base + 'while True:\n    lcd.message("", "", clear_rows=False)\n', 1))
+        out.append((f"text/empty/line/{cols}x{rows}{wiring}", base + 'while True:\n    lcd.line(0, "")\n', 1))
+        out.append((f"text/empty/write/{cols}x{rows}{wiring}", base + 'while True:\n    lcd.write(1, 0, "", clear_row=True)\n', 1))
     # keyword / positional call shapes
     out.append(("text/write_kw/16x2", HDR + decl("par", 16, 2) + 'while True:\n    lcd.write(3, 1, "kw", align="center", clear_row=False)\n', 1))
     out.append(("text/line_kw/16x2", HDR + decl("par", 16, 2) + 'while True:\n    lcd.line(1, "kw", clear_row=False, align="right")\n', 1))
@@ -318,6 +326,13 @@ def run(tier, seed, only=None):
     items.append(("pmono", "progress/host_monotone/8cols/max=7", 8, 7, None))
     items.append(("diff", "progress/label/16x2", HDR + decl("i2c", 16, 2) +
                   'while True:\n    lcd.progress(1, 50, max_value=100, width=8, label="Load", style="pipe")\n', 1))
+    for cols, rows, wiring in ((8, 2, "i2c"), (20, 4, "par")):
+        for extra in (-1, 0, 1):
+            lab = (ALPHA * 2)[:cols + extra]
+            items.append(("diff", f"progress/label_len={cols + extra}/{cols}x{rows}{wiring}", HDR + decl(wiring, cols, rows) + prefill(rows, cols) +
+                          f'while True:\n    lcd.progress(0, 3, max_value=8, width=4, label="{lab}", style="dot")\n', 1))
+            items.append(("diff", f"progress/label_len={cols + extra}_empty_bar/{cols}x{rows}{wiring}", HDR + decl(wiring, cols, rows) + prefill(rows, cols) +
+                          f'while True:\n    lcd.progress(0, 0, max_value=8, label="{lab}")\n', 1))
     items.append(("diff", "progress/label_overflow/8x2", HDR + decl("i2c", 8, 2) +
                   'while True:\n    lcd.progress(0, 8, max_value=8, width=8, label="ABCDEF", style="dot")\n', 1))
     if only:
